@@ -432,6 +432,8 @@ var baseline struct {
 	// the warm-up changed.
 	firstProbe   string
 	benignChange []string
+	// empty: the variables that hold nothing in the baseline image
+	empty map[string]bool
 }
 
 func ensureBaseline() {
@@ -459,6 +461,8 @@ func ensureBaseline() {
 		}
 	}
 	baseline.probe = probe()
+	baseline.globals, _ = globalsImage()
+	baseline.empty = emptyGlobals()
 	baseline.done = true
 }
 
@@ -540,9 +544,31 @@ func historiesFamily(length int, budget time.Duration) mc.Family {
 			}
 			g, gnodes := globalsImage()
 			if g != baseline.globals {
-				v := mc.Fail("C18:G1:package-state-changed:"+varName(g, baseline.globals), desc+": a package-level variable changed: "+firstDiff(g, baseline.globals))
-				v.Render = desc
-				return v
+				// A variable that held nothing at the baseline and holds something now
+				// is a cache filled on first use of a feature the warm-up did not touch:
+				// allowed once (whether that first use is properly synchronised is the
+				// cold-start family's question); from then on it belongs to the baseline.
+				lb, lg := strings.Split(baseline.globals, "\n"), strings.Split(g, "\n")
+				benign := len(lb) == len(lg)
+				for i := 0; benign && i < len(lb); i++ {
+					if ptrID.ReplaceAllString(lb[i], "&") == ptrID.ReplaceAllString(lg[i], "&") {
+						continue
+					}
+					name := lb[i]
+					if j := strings.Index(name, " = "); j > 0 {
+						name = name[:j]
+					}
+					if !baseline.empty[name] {
+						benign = false
+					}
+				}
+				if !benign {
+					v := mc.Fail("C18:G1:package-state-changed:"+varName(g, baseline.globals), desc+": a package-level variable changed: "+firstDiff(g, baseline.globals))
+					v.Render = desc
+					return v
+				}
+				baseline.globals = g
+				baseline.empty = emptyGlobals()
 			}
 			p := probe()
 			if p != baseline.probe {
@@ -747,6 +773,10 @@ func raceFamily() mc.Family {
 }
 
 func main() {
+	if len(os.Args) > 1 && os.Args[1] == "-coldpair" {
+		coldChild(os.Args[2:])
+		return
+	}
 	mc.Main(mc.Program{
 		Property: "C18",
 		Assumptions: []string{
@@ -763,7 +793,7 @@ func main() {
 				budget = 10 * time.Minute
 				length, preempt, nOps = 3, 3, len(nameOps)
 			}
-			return []mc.Family{historiesFamily(length, budget), lazyInitFamily(preempt, nOps, budget), overlapFamily(preempt, tier == "thorough", budget), raceFamily()}
+			return []mc.Family{historiesFamily(length, budget), lazyInitFamily(preempt, nOps, budget), overlapFamily(preempt, tier == "thorough", budget), coldFamily(budget), raceFamily()}
 		},
 	})
 }
